@@ -29,7 +29,8 @@ RULE = ("cases = (stage outcomes: syntax error | validation error | ambiguous/un
         "execution) x (document as text | parsed) x (query | mutation=serial) x random field tree (depth<=3, object/list/leaf "
         "fields, fields typed by an interface, the meta field __typename at root / nested / in list items / on the abstract type, "
         "introspection root fields __schema / __type with nested selections (their field trees derived from a reference run), per field outcome returns | raises ResolverError | argument coercion error, null and empty lists) x "
-        "root selection sets and sub-selections that collect to NOTHING (fields excluded by @skip / @include literally, through a "
+        "a resolver raising a LIBRARY error (ExecutionError) that aborts the request into a data-null response, at root / nested / list-item "
+        "positions, root selection sets and sub-selections that collect to NOTHING (fields excluded by @skip / @include literally, through a "
         "variable, through inline fragments and fragment spreads), a root selection whose directive condition cannot be evaluated, "
         "4 executor/runtime configurations x 0..3 middlewares of every callable flavour (function, lambda, bound method, callable "
         "instance, FALSY callable instances via __len__/__bool__/empty list subclass, functools.partial) x instrumentation stack (1..3 leaves, flat or nested "
@@ -220,6 +221,25 @@ def gen_case(rng, size=2):
         for nd in case["fields"]:
             nd["skip"] = rng.choice(SKIP_KINDS)
         case["use_var"] = outcome == "vars"
+    if outcome == "exec" and rng.random() < 0.08:
+        cands = []
+
+        def collect(nodes):
+            for nd in live(nodes):
+                if nd["f"] not in ("dflt", "__typename", "__intro") and nd["o"] != "arg":
+                    cands.append(nd)
+                collect_comp(nd["c"])
+
+        def collect_comp(c):
+            if c["t"] == "obj":
+                collect(c["fs"])
+            elif c["t"] == "list":
+                for it in c["items"]:
+                    collect_comp(it)
+        collect(case["fields"])
+        if cands:
+            nd = rng.choice(cands)
+            nd["o"], nd["c"] = "abort", {"t": "null"}
     case["send_sk"] = rng.random() < 0.5
     case["mw_flavours"] = [rng.choice(MW_FLAVOURS) for _ in range(case["mws"])]
     return case
@@ -243,6 +263,47 @@ def is_deferred(config, f):
 
 
 SKIP_KINDS = ("lit-skip", "lit-include", "var", "inline", "frag")
+
+
+def has_abort(fields):
+    return '"o": "abort"' in json.dumps(fields)
+
+
+def truncate_at_abort(fields):
+    """what a SEQUENTIAL executor still executes when a resolver raises a request-aborting library error: the fields in document
+    order up to and including the aborting one (which, for the trace, just 'raises'); nothing after it starts"""
+    state = {"done": False}
+
+    def nodes(ns):
+        out = []
+        for nd in ns:
+            if state["done"]:
+                break
+            if nd.get("skip"):
+                out.append(nd)
+                continue
+            d = dict(nd)
+            if nd["o"] == "abort":
+                d["o"] = "raise"
+                state["done"] = True
+                out.append(d)
+                break
+            d["c"] = comp(nd["c"])
+            out.append(d)
+        return out
+
+    def comp(c):
+        if c["t"] == "obj":
+            return {"t": "obj", "fs": nodes(c["fs"])}
+        if c["t"] == "list":
+            items = []
+            for it in c["items"]:
+                if state["done"]:
+                    break
+                items.append(comp(it))
+            return {"t": "list", "items": items}
+        return c
+    return nodes(fields)
 
 
 def live(nodes):
@@ -416,8 +477,9 @@ def model_fields(case, opaque=None):
         if c["t"] == "list":
             return {"t": "list", "items": [conv_comp(it, p + (i,)) for i, it in enumerate(c["items"])]}
         return {"t": c["t"]}
-    fs = conv_nodes(case["fields"], ())
-    if case["use_var"]:
+    aborted = has_abort(case["fields"])
+    fs = conv_nodes(truncate_at_abort(case["fields"]) if aborted else case["fields"], ())
+    if case["use_var"] and not aborted:
         fs.append({"k": "kv", "d": is_deferred(cfg, "s"), "o": "ret", "c": {"t": "leaf"}})
     return fs
 
@@ -571,6 +633,11 @@ def schema_for(mode):
         return p, ctx.plan[p]
 
     def body_end(ctx, p, nd):
+        if nd["o"] == "abort":
+            # a LIBRARY error raised by a resolver: it is not a field error, it aborts the whole request and is reported as a response
+            from py_gql.exc import ExecutionError
+            ctx.log.append(("raise", p))
+            raise ExecutionError("aborted at %s" % (p,))
         if nd["o"] == "raise":
             ctx.log.append(("raise", p))
             raise ResolverError("boom %s" % (p,))
@@ -853,7 +920,8 @@ def run_real(case, scale=1):
                             break
                         i = (sched.pop(0) if sched else 0) % len(rc.pending)
                         p, f = rc.pending.pop(i)
-                        f.set_result(None)
+                        if not f.done():        # a sibling cancelled by the runtime after another field aborted the request
+                            f.set_result(None)
                     return task.result()
                 result = loop.run_until_complete(main())
             finally:
@@ -926,6 +994,8 @@ def oracle(case, log, payload):
     oc = case["outcome"]
     tag = "%s:%s" % (oc, "text" if case["doc_is_text"] else "ast")
     full_log = log
+    aborted = has_abort(case["fields"])
+    sync_cfg = cfg in ("blocking", "exec-blocking")
     has_ref = any(e[0] == "h" and e[1] == REF for e in full_log) or bool(partial)
     # --- partial members: each sees exactly what a full instrumentation sees, restricted to the hooks it overrides
     ref_seen = [(e[2], e[3]) for e in full_log if e[0] == "h" and e[1] == REF]
@@ -987,7 +1057,10 @@ def oracle(case, log, payload):
                 starts.setdefault(p, []).append(i)
             elif n == "field-":
                 ends.setdefault(p, []).append(i)
+        finished = {e[1] for e in log if e[0] in ("ret", "raise")}
         for p in set(starts) | set(ends):
+            if aborted and len(starts.get(p, [])) == 1 and not ends.get(p) and p not in finished and not sync_cfg:
+                continue        # request aborted by another field while this resolver was still pending: it was never resolved
             if len(starts.get(p, [])) != 1 or len(ends.get(p, [])) != 1:
                 bad.append(("field-hooks-count:%d+%d-:%s" % (len(starts.get(p, [])), len(ends.get(p, [])), cfg),
                             "field %s: %d start hooks, %d end hooks" % (pstr(p), len(starts.get(p, [])), len(ends.get(p, [])))))
@@ -1004,6 +1077,8 @@ def oracle(case, log, payload):
     for p in called:
         c = idx[("call", p)]
         done = idx.get(("ret", p), []) + idx.get(("raise", p), [])
+        if aborted and not sync_cfg and not done:
+            continue            # still pending when another field aborted the request
         if len(c) != 1 or len(done) != 1:
             bad.append(("resolver-calls:%d:%s" % (len(c), cfg), "field %s: resolver invoked %d times, finished %d times" % (pstr(p), len(c), len(done))))
             continue
@@ -1112,6 +1187,8 @@ def tracer_oracle(case, log, payload):
         bad.append(("tracer-resolvers:%s" % tag, "tracing resolvers %r differ from the started fields %r" % ([r["path"] for r in res], started)))
     for r in res:
         if not isinstance(r.get("duration"), int) or not isinstance(r.get("startOffset"), int):
+            if has_abort(case["fields"]) and case["config"] in ("threadpool", "asyncio"):
+                continue        # a resolver still pending when another field aborted the request
             bad.append(("tracer-resolver-open:%s" % tag, "tracing resolver entry without duration: %r" % (r,)))
             break
     return bad
@@ -1123,6 +1200,8 @@ def tracer_oracle(case, log, payload):
 def compare(case, real, model):
     """-> None or (signature, what)"""
     cfg = case["config"]
+    if has_abort(case["fields"]) and cfg in ("threadpool", "asyncio"):
+        return None     # which sibling resolvers still run after the abort depends on the runtime: only the direct oracle applies
     if cfg != "asyncio":
         if real != model:
             i = 0
@@ -1242,6 +1321,8 @@ def check_cases(ctx, cases):
         ctx.stat("mws=%d" % case["mws"])
         ctx.stat("instr_leaves=%d" % len(leaves(case["instr"])))
         ctx.stat("nodes=%s" % min(count_nodes(case["fields"]), 12))
+        if has_abort(case["fields"]):
+            ctx.stat("resolver_aborts_request")
         if any(n["f"] == "__intro" for n in case["fields"]):
             ctx.stat("introspection_root_field")
         if "__typename" in json.dumps(case["fields"]):
@@ -1341,6 +1422,27 @@ def exhaustive_cases():
                             "mws": mws, "instr": 0, "tracer": False,
                             "fields": [leaf("b", "vd"), {"k": "q", "f": "__intro", "intro": intro, "sel": [], "o": "ret", "c": {"t": "leaf"}}, tn("t0")],
                             "sched": [1, 0] * 8})
+    # a resolver raises a LIBRARY error (ExecutionError) that aborts the request: the outcome is a response (data null), the
+    # execution stage and the field must be ended on every executor / runtime
+    def with_abort(where):
+        f = copy.deepcopy(forest)
+        if where == "root":
+            f[1]["o"], f[1]["c"] = "abort", {"t": "null"}
+        elif where == "nested":
+            f[0]["c"]["fs"][0]["o"], f[0]["c"]["fs"][0]["c"] = "abort", {"t": "null"}
+        elif where == "nested-sync":
+            f[0]["c"]["fs"][1]["o"], f[0]["c"]["fs"][1]["c"] = "abort", {"t": "null"}
+        else:
+            f[2]["c"]["items"][2]["fs"][0]["o"] = "abort"
+        return f
+    n = 0
+    for cfg in CONFIGS:
+        for serial in (False, True):
+            for where in ("root", "nested", "nested-sync", "list-item"):
+                n += 1
+                out.append({"config": cfg, "outcome": "exec", "doc_is_text": bool(n % 2), "serial": serial, "novalidate": False,
+                            "use_var": False, "mws": n % 3, "instr": [0, 1] if n % 2 else 0, "tracer": n % 4 == 0,
+                            "fields": with_abort(where), "sched": [n % 3, 1, 0] + [0] * 9})
     # root selection sets that collect to NOTHING (every field excluded, each way of excluding), empty sub-selections after skipping
     def skipped(nd, kind):
         d = copy.deepcopy(nd)
@@ -1421,6 +1523,38 @@ def corpus_cases():
 
 
 
+def probe_exception_outcome(ctx):
+    """Named probe (finding N3): a request whose processing RAISES (here: an unexpected resolver exception) leaves the started
+    query / execution stages open. The statement speaks of request OUTCOMES; an escaping exception is recorded as a finding."""
+    from py_gql import process_graphql_query
+    from py_gql.execution import BlockingExecutor, Instrumentation
+    from py_gql.schema import Field, Int, ObjectType, Schema
+    log = []
+
+    class Rec(Instrumentation):
+        pass
+    for st in ("query", "parsing", "validation", "execution"):
+        for pol, suffix in (("start", "+"), ("end", "-")):
+            setattr(Rec, "on_%s_%s" % (st, pol), (lambda name: lambda self: log.append(name))(st + suffix))
+
+    def boom(*a, **k):
+        raise ValueError("unexpected")
+    schema = Schema(ObjectType("Query", [Field("a", Int, resolver=boom)]))
+    ctx.count()
+    try:
+        process_graphql_query(schema, "{ a }", instrumentation=Rec(), executor_cls=BlockingExecutor)
+        return True          # the exception became a response: nothing to report here
+    except ValueError:
+        pass
+    opened = [s[:-1] for s in log if s.endswith("+") and s[:-1] + "-" not in log]
+    if opened:
+        ctx.fail("stages-open-on-exception:unexpected-resolver-exception:%s" % ",".join(opened),
+                 "processing raised ValueError out of process_graphql_query with the stages %s still open" % opened,
+                 {"probe": "exception-outcome", "log": log})
+        return False
+    return True
+
+
 def probe_completion_resolver_error(ctx):
     """Named probe (finding N2): a ResolverError raised while COMPLETING the value (resolve_type of an abstract type)
     instead of inside the resolver. `Executor.resolve_field` runs `complete` (on_field_end) and then `fail` (on_field_end)."""
@@ -1460,6 +1594,7 @@ def probe_completion_resolver_error(ctx):
 def run(ctx):
     try:
         probe_completion_resolver_error(ctx)
+        probe_exception_outcome(ctx)
         cases = corpus_cases() + exhaustive_cases()
         ctx.extra["exhaustive_block_cases"] = len(cases)
         check_cases(ctx, cases)
@@ -1491,6 +1626,8 @@ def _cleanup(ctx):
 def replay(ctx, data):
     if data.get("input", {}).get("probe") == "completion-resolver-error":
         return probe_completion_resolver_error(ctx)
+    if data.get("input", {}).get("probe") == "exception-outcome":
+        return probe_exception_outcome(ctx)
     case = data.get("input", {}).get("case")
     if case is None:
         return True
